@@ -24,60 +24,60 @@ macro_rules! tsan_family {
      $or:ident, $xor:ident, $nand:ident, $cas_val:ident, $cas_strong:ident, $cas_weak:ident) => {
         #[no_mangle]
         pub unsafe extern "C" fn $load(a: *const $ty, _mo: i32) -> $ty {
-            atomic_point();
+            atomic_point(a as usize, false);
             (*(a as *const $at)).load(SeqCst)
         }
         #[no_mangle]
         pub unsafe extern "C" fn $store(a: *mut $ty, v: $ty, _mo: i32) {
-            atomic_point();
+            atomic_point(a as usize, true);
             (*(a as *const $at)).store(v, SeqCst)
         }
         #[no_mangle]
         pub unsafe extern "C" fn $xchg(a: *mut $ty, v: $ty, _mo: i32) -> $ty {
-            atomic_point();
+            atomic_point(a as usize, true);
             (*(a as *const $at)).swap(v, SeqCst)
         }
         #[no_mangle]
         pub unsafe extern "C" fn $add(a: *mut $ty, v: $ty, _mo: i32) -> $ty {
-            atomic_point();
+            atomic_point(a as usize, true);
             (*(a as *const $at)).fetch_add(v, SeqCst)
         }
         #[no_mangle]
         pub unsafe extern "C" fn $sub(a: *mut $ty, v: $ty, _mo: i32) -> $ty {
-            atomic_point();
+            atomic_point(a as usize, true);
             (*(a as *const $at)).fetch_sub(v, SeqCst)
         }
         #[no_mangle]
         pub unsafe extern "C" fn $and(a: *mut $ty, v: $ty, _mo: i32) -> $ty {
-            atomic_point();
+            atomic_point(a as usize, true);
             (*(a as *const $at)).fetch_and(v, SeqCst)
         }
         #[no_mangle]
         pub unsafe extern "C" fn $or(a: *mut $ty, v: $ty, _mo: i32) -> $ty {
-            atomic_point();
+            atomic_point(a as usize, true);
             (*(a as *const $at)).fetch_or(v, SeqCst)
         }
         #[no_mangle]
         pub unsafe extern "C" fn $xor(a: *mut $ty, v: $ty, _mo: i32) -> $ty {
-            atomic_point();
+            atomic_point(a as usize, true);
             (*(a as *const $at)).fetch_xor(v, SeqCst)
         }
         #[no_mangle]
         pub unsafe extern "C" fn $nand(a: *mut $ty, v: $ty, _mo: i32) -> $ty {
-            atomic_point();
+            atomic_point(a as usize, true);
             (*(a as *const $at)).fetch_nand(v, SeqCst)
         }
         /// returns the value found (equal to `c` iff the exchange happened)
         #[no_mangle]
         pub unsafe extern "C" fn $cas_val(a: *mut $ty, c: $ty, v: $ty, _mo: i32, _fmo: i32) -> $ty {
-            atomic_point();
+            atomic_point(a as usize, true);
             match (*(a as *const $at)).compare_exchange(c, v, SeqCst, SeqCst) {
                 Ok(x) | Err(x) => x,
             }
         }
         #[no_mangle]
         pub unsafe extern "C" fn $cas_strong(a: *mut $ty, c: *mut $ty, v: $ty, _mo: i32, _fmo: i32) -> i32 {
-            atomic_point();
+            atomic_point(a as usize, true);
             match (*(a as *const $at)).compare_exchange(*c, v, SeqCst, SeqCst) {
                 Ok(_) => 1,
                 Err(x) => {
@@ -88,7 +88,7 @@ macro_rules! tsan_family {
         }
         #[no_mangle]
         pub unsafe extern "C" fn $cas_weak(a: *mut $ty, c: *mut $ty, v: $ty, _mo: i32, _fmo: i32) -> i32 {
-            atomic_point();
+            atomic_point(a as usize, true);
             // the strong form is a legal implementation of the weak one (no spurious failure)
             match (*(a as *const $at)).compare_exchange(*c, v, SeqCst, SeqCst) {
                 Ok(_) => 1,
@@ -132,7 +132,7 @@ tsan_family!(
 
 #[no_mangle]
 pub unsafe extern "C" fn __tsan_atomic_thread_fence(_mo: i32) {
-    atomic_point();
+    atomic_point(0, false);
     std::sync::atomic::fence(SeqCst);
 }
 
